@@ -109,6 +109,12 @@ pub fn normalize_loc(loc: &str) -> String {
     if let Some(i) = loc.find("/repo/") {
         return loc[i + 6..].to_string();
     }
+    if let Some(i) = loc.find("/library/") {
+        if loc.starts_with("/rustc/") {
+            // the standard library: independent of the toolchain's build hash
+            return format!("rust-std:{}", &loc[i + 9..]);
+        }
+    }
     if let Some(i) = loc.find("/registry/src/") {
         let rest = &loc[i + 14..];
         if let Some(j) = rest.find('/') {
